@@ -13,7 +13,7 @@ import re
 
 WRAPPERS = {
     'ImplicitCastExpr', 'ExprWithCleanups', 'MaterializeTemporaryExpr', 'CXXBindTemporaryExpr',
-    'ParenExpr', 'ConstantExpr', 'AttributedStmt', 'FullExpr',
+    'ParenExpr', 'ConstantExpr', 'AttributedStmt', 'FullExpr', 'CXXRewrittenBinaryOperator',
 }
 FUNC_KINDS = {'FunctionDecl', 'CXXMethodDecl', 'CXXConstructorDecl', 'CXXDestructorDecl',
               'CXXConversionDecl', 'CXXDeductionGuideDecl'}
@@ -183,7 +183,7 @@ def render(n, depth=6):
 class Func:
     __slots__ = ('key', 'id', 'name', 'qualname', 'sig', 'targs', 'params', 'body', 'file',
                  'line', 'is_lambda', 'parent', 'tu', 'record', 'is_const', 'is_static',
-                 'dependent', 'inits', 'captures', 'is_inline', 'is_virtual')
+                 'dependent', 'inits', 'captures', 'is_inline', 'is_virtual', 'tparams')
 
     def __init__(self):
         self.key = None
@@ -207,6 +207,15 @@ class Func:
         self.captures = []
         self.is_inline = False
         self.is_virtual = False
+        self.tparams = ()
+
+    def targ(self, pname):
+        """template argument bound to the parameter named pname (string) or None"""
+        if pname in self.tparams:
+            i = self.tparams.index(pname)
+            if i < len(self.targs):
+                return self.targs[i]
+        return None
 
     @property
     def label(self):
